@@ -11,3 +11,19 @@ CLAIMS["C05"] = (
  "runtime monitor with reference model: len(Diff)==0, Equals and an independent oracle compared pairwise; exit status of the three real binaries observed as processes",
  "Held on every executed (a, b, option set) incl. MERGE combinations and Precision at root / under keys / in arrays, the confusable atoms exhaustively, and on sampled CLI runs of v2/jd, jd and jd -v2=false (exit 0 iff oracle-equal).",
  TB, "DESIGN.md 5.5")
+CLAIMS["C06"] = (
+ "runtime monitor with reference model: edit counts of list diffs judged against a textbook LCS DP; context lines judged by stepwise reference interpretation of the hunks",
+ "Held on every executed array pair: all pairs over {1,2,3} up to length 4 (quick) / 5 (thorough) at four nesting positions (exhaustive), all pairs over {1,2} up to length 7 (thorough), random arrays up to length 40 over tiny alphabets, mixed scalar/container arrays (recursion instead of replacement), and context lines of every index hunk of random nested documents.",
+ TB, "DESIGN.md 5.6")
+CLAIMS["C07"] = (
+ "runtime monitor with reference model: per-hunk reality checks against a and b, stepwise no-op detection with the reference interpreter, leave-one-out sub-diffs applied with the real Patch",
+ "Held on every executed diff (list, SET, MULTISET, SetKeys x2, MERGE, SET+MERGE, exhaustive small arrays): every hunk removes what is in a only and adds what is in b only, no hunk leaves the document unchanged, and no leave-one-out sub-diff still turns a into b.",
+ TB, "DESIGN.md 5.7")
+CLAIMS["C03"] = (
+ "runtime monitor with reference model: every Patch event of a generated diff or a sub-sequence of its hunks on a, b and perturbed targets compared (apply/reject and result) with an independent reference hunk interpreter",
+ "Held on every executed (hunk subset, target) event: agreement in both directions (jd applies iff every encoded expectation holds; equal results), incl. all 2^n-1 subsets for small diffs, targets perturbed exactly at the edited array at nesting depth 0-3, in memory and after render/re-read.",
+ TB, "DESIGN.md 5.3")
+CLAIMS["C08"] = (
+ "runtime monitor with reference model: every Patch event of set / multiset / keyed-member diffs on permuted and hostile targets compared with an independent set / bag / keyed-member interpreter",
+ "Held on every executed (diff, target) event under SET, MULTISET and three SetKeys configurations, incl. non-array targets, absent members, insufficient multiplicity, changed non-key fields; the swallowed nested error inside keyed members is the open known finding F4 (classifier + deviation model).",
+ TB, "DESIGN.md 5.8")
